@@ -1,4 +1,5 @@
 import SockModel.Model.LocksLemmas
+import SockModel.Spec.C04
 /-!
 # C08  Stop always ends Run
 
@@ -160,3 +161,37 @@ theorem legacy_stop_lost :
   by_cases ht : t = 0 <;> simp [St.setU, init, ht]
 
 end SockModel.Locks
+
+/-! ### the run-time oracle is a theorem of the model (`Spec/C04.lean`) -/
+namespace SockModel.Locks.C08
+open SockModel.Locks.Spec
+
+/-- the predicate `./check C08` evaluates on the implementation's scheduler trace (`Spec/C04.lean`: `specStep`
+in mode C08 = monitor `stepC`: "Run began n further steps after a Stop() had returned" for n > 1 - the
+run-time form of `stop_at_most_one_step`; "Run() returned although no Stop() was ever called" -
+`run_needs_stop`; "Run() did not return after Stop()" at the end of an execution; outcomes `deadlock`
+(a Run that never returns), `stuck`, `crash` are failures) accepts every trace of the model, for every history
+of any length: any number of Stops from any thread, from tasks / handlers / signal handlers (`dStop` at any
+point of the driver thread), successive Runs, manual Steps in between.  No hypothesis. -/
+theorem spec_holds_on_model (history : List MOp) :
+    ∃ s, specRun ⟨false, false, true⟩ {} (modelTrace {} history) = .ok s :=
+  model_satisfies_spec _ history
+
+/-- non-vacuity: Stop before Run (the next Run returns without stepping), then a second Run stopped from a task -/
+example : modelTrace {} [.tr (.uStopSet 1), .tr (.uStopBump 1), .tr .dRunEnter, .tr .dRunGo, .tr .dRunExit,
+      .tr .dRunEnter, .tr .dRunGo, .tr .dLockStep, .tr .dStop, .tr .dToPoll, .tr .dPollPipe, .tr .dUnlockStep,
+      .tr .dLockPause, .tr .dUnlockPause, .tr .dRunGo, .tr .dRunExit, .done] =
+    [.ev 2 (.beginStop true), .ev 2 .bump, .ev 2 .endStop, .ev 0 .runEnter, .ev 0 .runExit, .ev 0 .runEnter,
+     .ev 0 .lockStep, .ev 0 (.beginStop false), .ev 0 .bump, .ev 0 .endStop, .ev 0 .other, .ev 0 .other,
+     .ev 0 .unlockStep, .ev 0 .other, .ev 0 .other, .ev 0 .runExit, .done] := by decide
+/-- rejected: a Run that returns without a Stop; a Run that begins two steps after a Stop had returned -/
+example : accepts ⟨false, false, true⟩ [.ev 0 .runEnter, .ev 0 .lockStep, .ev 0 .unlockStep, .ev 0 .runExit] = false := by
+  decide
+example : accepts ⟨false, false, true⟩
+    [.ev 0 .runEnter, .ev 2 (.beginStop true), .ev 2 .bump, .ev 2 .endStop, .ev 0 .lockStep, .ev 0 .unlockStep,
+     .ev 0 .lockStep] = false := by decide
+example : accepts ⟨false, false, true⟩
+    [.ev 0 .runEnter, .ev 2 (.beginStop true), .ev 2 .bump, .ev 2 .endStop, .ev 0 .lockStep, .ev 0 .unlockStep,
+     .ev 0 .runExit] = true := by decide
+
+end SockModel.Locks.C08
